@@ -35,7 +35,15 @@ def gen_rows(rng, n, step=1, shock=None):
     return rows
 
 
-def gen_env(rng, kind=None):
+def gen_env(rng, kind=None, flip=None):
+    """`flip` (default: 1 in 6) builds the pool with token0 = oSQTH"""
+    e = _gen_env(rng, kind)
+    if (rng.random() < 1 / 6) if flip is None else flip:
+        e["flip"] = True
+    return e
+
+
+def _gen_env(rng, kind=None):
     kind = kind or rng.choice(["spot", "spot", "twap", "twap", "twap", "short-history", "coarse-grid", "shock"])
     if kind == "spot":
         rows = gen_rows(rng, 1)
@@ -58,10 +66,13 @@ def gen_env(rng, kind=None):
     return {"rows": rows, "now": now, "cur": cur, "uniPrice": uni_price, "uniOpen": rng.random() > 0.06, "kind": kind}
 
 
-def exact_env(nf="0.5", weth="2000", osqth="0.1", uni_price=None, uni_open=True):
+def exact_env(nf="0.5", weth="2000", osqth="0.1", uni_price=None, uni_open=True, flip=False):
     """the boundary stream: exactly representable numbers (index oSQTH/ETH = nf·weth/10000 = 0.1), spot pricing"""
     cur = [D(nf), D(weth), D(osqth)]
-    return {"rows": [[0] + cur], "now": None, "cur": cur, "uniPrice": D(uni_price or osqth), "uniOpen": uni_open, "kind": "exact"}
+    e = {"rows": [[0] + cur], "now": None, "cur": cur, "uniPrice": D(uni_price or osqth), "uniOpen": uni_open, "kind": "exact"}
+    if flip:
+        e["flip"] = True
+    return e
 
 
 def shift_env(rng, env):
@@ -271,8 +282,11 @@ def parse_spec(s):
 
 
 def parse_env(e):
-    return {"rows": [[int(r[0]), D(str(r[1])), D(str(r[2])), D(str(r[3]))] for r in e["rows"]], "now": None if e["now"] is None else int(e["now"]),
-            "cur": [D(str(x)) for x in e["cur"]], "uniPrice": D(str(e["uniPrice"])), "uniOpen": bool(e["uniOpen"]), "kind": e.get("kind", "")}
+    r = {"rows": [[int(r[0]), D(str(r[1])), D(str(r[2])), D(str(r[3]))] for r in e["rows"]], "now": None if e["now"] is None else int(e["now"]),
+         "cur": [D(str(x)) for x in e["cur"]], "uniPrice": D(str(e["uniPrice"])), "uniOpen": bool(e["uniOpen"]), "kind": e.get("kind", "")}
+    if e.get("flip"):
+        r["flip"] = True
+    return r
 
 
 def parse_op(o):
